@@ -25,19 +25,33 @@ package req
 // no later header field changes that: a Content-Length field is looked at only while the length is not -1.
 // phChunked: InitContentLengthWithValue(-1) has been called in this parse.
 //@ ghost var phChunked bool
+// clBad: some Content-Length field of this block did not parse (the message must then be rejected, never framed by a
+// guess); clOK/clVal: outcome and value of the last Content-Length parse - the only non-sentinel length ever installed.
+//@ ghost var clBad bool
+//@ ghost var clOK bool
+//@ ghost var clVal int
 //@ func parseHeaders(h, buf) n, err
 //@   props C03, C01
 //@   requires h != nil
-//@   modifies *, phChunked
+//@   modifies *, phChunked, clBad, clOK, clVal
 //@   ghostset-at-entry phChunked = false
 //@   assert @C01 before InitContentLengthWithValue!: arg1 == -1 || !phChunked
 //@   ghostset after InitContentLengthWithValue!: phChunked = phChunked || arg1 == -1
 //@   top-ensures @C01 phChunked && err == nil ==> h.contentLength == -1
+//@   ghostset-at-entry clBad = false
+//@   ghostset-at-entry clOK = false
+//@   ghostset after ParseContentLength: clBad = clBad || result1 != nil
+//@   ghostset after ParseContentLength: clOK = (result1 == nil)
+//@   ghostset after ParseContentLength: clVal = result0
+//@   assert @C01 before InitContentLengthWithValue!: arg1 == -2 || arg1 == -1 || (clOK && arg1 == clVal)
+//@   top-ensures @C01 clBad ==> err != nil
+//@   top-ensures @C01 err != nil ==> n == 0
 //@   ensures h.disableNormalizing == old(h.disableNormalizing)
 //@   ghostset-at-entry parseArr = arr(buf)
 //@   ensures err == nil ==> 0 <= n && n <= len(buf)
 //@   loop 0:
 //@     invariant hsInv(s) && s.HLen + len(s.B) <= len(buf) && arr(s.B) == parseArr && h.disableNormalizing == old(h.disableNormalizing) && (phChunked ==> h.contentLength == -1)
+//@     invariant @C01 clBad ==> err != nil
 
 // C02: the header scanner runs only after ReadRawHeaders found the block complete.
 //@ func parse(h, buf) n, err
